@@ -236,9 +236,10 @@ class proceed:
             if not selector.immediate:
                 push((selector, acc))
             for pair, (src_selector, src_acc) in self.own:
-                # (The same selector with another accumulator: the function
-                # it names is running again, a new call of it resumes us)
-                if src_selector is selector:
+                # (The same selector with another accumulator of the same
+                # probe or overlay: the function it names is running again,
+                # a new call of it resumes us)
+                if src_selector is selector and src_acc.origin is acc.origin:
                     push(pair)
         self.inner = HandlerCollection(pairs)
 
